@@ -98,7 +98,12 @@ def tamper(eng, wire, k):
     w = list(blist(wire))
     rv = ref.parse_data(w, ref.CERT)
     a = rv['#region']['name_start']
-    pos = a + (len(w) - 1 - a) * k // 5
+    if isinstance(k, tuple):
+        pos = a + k[1]                      # ('at', offset): every byte position in the thorough tier
+        if pos >= len(w):
+            return None
+    else:
+        pos = a + (len(w) - 1 - a) * k // 5
     delta = eng.int('delta', 1, 255)
     w[pos] = (w[pos] + delta) % 256
     return bwrap(w)
@@ -407,6 +412,8 @@ def build_chain(eng, D, kinds, fault, link, tk=0):
             wi = corrupt_sig(eng, wi)
         if link == j and fault == 'tamper':
             wi = tamper(eng, wi, tk)
+            if wi is None:
+                return None
         if link == j - 1 and fault == 'key-substituted':
             # same certificate name, properly issued, but carrying the sibling's key bits
             ni2, wi2 = sv.new_cert(keyname(i), X, pubo, iss, d0, d1)
@@ -426,6 +433,8 @@ def build_chain(eng, D, kinds, fault, link, tk=0):
         packet = corrupt_sig(eng, packet)
     if link == 0 and fault == 'tamper':
         packet = tamper(eng, packet, tk)
+        if packet is None:
+            return None
     if fault == 'name-outside-schema':
         packet = tobytes(enc.make_data('/k/e/1', enc.MetaInfo(), b'payload', signers[D - 1]))
     W['packet'] = packet
@@ -459,34 +468,42 @@ def ref_verifies(key_bits, w, rv):
     return False
 
 
-def ref_chain(W, schema, wire, budget=8):
-    """the chain predicate of the statement, computed from reference-parsed bytes and the source-level schema"""
-    if budget == 0:
+def ref_chain(W, schema, wire, budget=8, why=None):
+    """the chain predicate of the statement, computed from reference-parsed bytes and the source-level schema;
+    ``why`` (a list) receives the reason of a negative answer"""
+    def no(reason):
+        if why is not None and not why:
+            why.append(reason)
         return False
+    if budget == 0:
+        return no('loop')
     w = list(blist(wire))
     try:
         rv = ref.parse_data(w, ref.CERT)
-    except ref.RefReject:
-        return False
+    except ref.RefReject as e:
+        return no('element-malformed:' + str(e.args[0]))
     kl = ((rv.get('signature_info') or {}).get('key_locator') or {}).get('name')
     if not kl:
-        return False
+        return no('no-key-locator')
     name = rv['name']
     if not lvsref.ref_check(schema, [bytes(c) for c in name], [bytes(c) for c in kl]):
-        return False
+        return no('link-not-allowed-by-schema')
     klt = tuple(bytes(c) for c in kl)
     if klt == _tup(W['anchor'][0]):
         key = W['anchor'][2]
     else:
         if W['behaviour'].get(klt) or klt not in W['certs']:
-            return False
+            return no('certificate-not-retrievable')
         cw = W['certs'][klt]
-        if not ref_chain(W, schema, cw, budget - 1):
+        if not ref_chain(W, schema, cw, budget - 1, why):
             return False
         key = ref.parse_data(list(blist(cw)), ref.CERT).get('content')
         if not key:
-            return False
-    return ref_verifies(key, w, rv)
+            return no('certificate-without-key')
+    ok = ref_verifies(key, w, rv)
+    if why is not None and not why:
+        why.append('signature-does-not-verify')      # (used only when ok turns out False)
+    return ok
 
 
 def h_deep(eng, case):
@@ -499,13 +516,20 @@ def h_deep(eng, case):
     if key not in _C:
         _C[key] = (compile_lvs(text), lvsref.Schema(text))
     model, rschema = _C[key]
-    W = build_chain(eng, D, case['kinds'], case['fault'], case['link'], case.get('k', 0))
+    tk = case.get('k', 0)
+    if isinstance(tk, list):
+        tk = tuple(tk)
+    W = build_chain(eng, D, case['kinds'], case['fault'], case['link'], tk)
+    if W is None:
+        eng.reach('position-beyond-the-element')
+        return
     try:
         ref.parse_data(list(blist(W['packet'])), ref.CERT)
     except ref.RefReject:
         eng.reach('tampered-packet-malformed')       # (decoding of ill-formed packets is C07's subject)
         return
-    expect = ref_chain(W, rschema, W['packet'])
+    why = []
+    expect = ref_chain(W, rschema, W['packet'], 8, why)
     if case['fault'] == 'none':
         eng.check(expect, 'reference-accepts-the-valid-chain')      # the reference itself is not vacuous
 
@@ -527,7 +551,7 @@ def h_deep(eng, case):
     g = bool(got) if isinstance(got, bool) or got is None else got
     eng.check(Iff(g, expect), 'verdict-equals-chain-predicate',
               {'fault': case['fault'], 'depth': D, 'link': case['link'], 'got': repr(got)},
-              sig='%s:%s' % ('accepts' if got else 'rejects', case['fault']))
+              sig='%s:%s:%s' % ('accepts' if got else 'rejects', case['fault'], why[0] if (why and got) else ''))
     # certificates are asked for by exactly the names the chain mentions, each at most once per validation
     asked = list(face.requests)
     eng.check(len(asked) == len(set(asked)), 'each-certificate-fetched-once', {'asked': len(asked)})
@@ -681,6 +705,12 @@ def cases(tier, seed):
             for link in range(D):
                 for k in range(6):
                     cs.append(('deep', {'depth': D, 'kinds': kinds, 'fault': 'tamper', 'link': link, 'k': k}, {'weight': 5}))
+    if tier != 'quick':
+        # every byte position of every element of a depth-2 and a depth-3 chain
+        for D, kinds in ((2, ['rsa', 'ecdsa']), (3, ['hmac', 'ecdsa', 'rsa'])):
+            for link in range(D):
+                for off in range(0, 460):
+                    cs.append(('deep', {'depth': D, 'kinds': kinds, 'fault': 'tamper', 'link': link, 'k': ['at', off]}))
     for sch in CTOR_SCHEMAS:
         for kind in ('rsa', 'hmac'):
             cs.append(('ctor_roots', {'schema': sch, 'anchor_kind': kind}))
